@@ -856,12 +856,11 @@ def regex_substr(expression: exp.Expression) -> exp.Expression:
             regex_parameters = exp.Literal(is_string=True)
 
         group_num = expression.args["group"]
-        if not group_num:
-            if extract:
-                # 'e' extracts the first group unless another group is given
-                group_num = exp.Literal(this="1", is_string=False)
-            else:
-                group_num = exp.Literal(this="0", is_string=False)
+        if extract and (not group_num or group_num.this == "0"):
+            # 'e' extracts the first group unless another group is given (the parser defaults the group to 0)
+            group_num = exp.Literal(this="1", is_string=False)
+        elif not group_num:
+            group_num = exp.Literal(this="0", is_string=False)
 
         expression = exp.Bracket(
             this=exp.Anonymous(
